@@ -52,6 +52,18 @@ def reject_variants(doc):
             d5 = copy.deepcopy(d0)
             d5[i]["extra_first"] = [raw("Path", "Path", "{}")]
             res.append(("empty_object", d5))
+            # a property of the Path body whose type is not scalar
+            d7 = copy.deepcopy(d0)
+            d7[i]["extra_first"] = [raw("Path", "Path", "{", '  "%s": @zobj' % par[0], "}")]
+            d7.append(raw("TYPE", "TYPE @zobj", "{", '  "deep": 1', "}"))
+            res.append(("prop_object_type", d7))
+            d8 = copy.deepcopy(d0)
+            d8[i]["extra_first"] = [raw("Path", "Path", "{", '  "%s": @zarr' % par[0], "}")]
+            d8.append(raw("TYPE", "TYPE @zarr", "[", "  1", "]"))
+            res.append(("prop_array_type", d8))
+            d9 = copy.deepcopy(d0)
+            d9[i]["extra_first"] = [raw("Path", "Path", "{", '  "%s": @znone' % par[0], "}")]
+            res.append(("prop_undefined_type", d9))
             # the body is a reference to a type that is not an object (one per kind of non-object type)
             for nm, tdef in (("ref_regex_type", ["TYPE @zpv regex", "/ab+/"]), ("ref_any_type", ["TYPE @zpv any"]),
                              ("ref_scalar_type", ["TYPE @zpv", "1"]), ("ref_array_type", ["TYPE @zpv", "[1]"]),
@@ -94,6 +106,38 @@ def shortcut_forms(doc):
             three += [raw("TYPE", "TYPE @zpv", *body), raw("TYPE", "TYPE @zpx", "@zpw"), raw("TYPE", "TYPE @zpw", "@zpv")]
             return [("inline", inline), ("shortcut", one), ("shortcut_chain2", two), ("shortcut_chain3", three)]
     return []
+
+
+# variants whose fault sits in the one Path directive that reject_variants() writes at the head of a URL block
+SINGLE_SITE = ("unused_property", "nested_object", "array_body", "empty_object", "prop_object_type", "prop_array_type",
+               "prop_undefined_type", "ref_regex_type", "ref_any_type", "ref_scalar_type", "ref_array_type",
+               "ref_undefined_type", "ref_chain_to_regex")
+
+
+def located_variants(doc):
+    """-> (name, text, begin, end): faulty documents with the byte range of the Path directive at fault (keyword
+    to the end of its body); a second, correct URL block with its own Path follows, so that the faulty
+    Path is never the last one of the project"""
+    tail = {"t": "url", "path": ["zlast", "{zl}"], "tags": [], "pathdecl": ["zl"], "methods": [
+        {"verb": "GET", "annot": "", "desc": "", "tags": [], "query": "", "reqHeaders": False, "pathdecl": [],
+         "req": {"form": "none", "b": {"k": "none", "n": "", "props": [], "allOf": []}},
+         "resps": [{"code": "200", "annot": "", "spec": {"form": "param", "b": {"k": "any", "n": "", "props": [], "allOf": []}}, "headers": False}]}]}
+    res = []
+    for nm, rd in reject_variants(doc):
+        if nm not in SINGLE_SITE:
+            continue
+        rd = rd + [tail]
+        text, bs, spans = apidoc.render(rd)
+        # the faulty Path is the first Path directive of the first URL block that has a parameter
+        for k, b in enumerate(rd):
+            if b["t"] == "url" and b.get("extra_first"):
+                lo, hi = bs[k]
+                kw = text.encode().find(b"Path", lo, hi)
+                first = b["extra_first"][0]["lines"]
+                end = text.encode().find(first[-1].encode(), kw, hi) + len(first[-1].encode())
+                res.append((nm, text, kw, end))
+                break
+    return res
 
 
 def main(tier):
